@@ -48,6 +48,7 @@ type Contract struct {
 	Extern     bool // trusted: never verified, only used at call sites
 	Pure       bool
 	Inline     bool
+	StoreAfter [][2]string // (field, callee pattern): every store to the field is dominated by a call of the callee
 	Guarded    [][2]string // (field, mutex field): the field is accessed only while the mutex is held
 	AssumePre  []string    // callee key patterns whose preconditions are assumed at call sites (trusted)
 	NoMapRange bool        // syntactic obligation: the function does not iterate over a map
@@ -397,7 +398,7 @@ func (p *parser) postfix(e SExpr) SExpr {
 // contract file parsing
 
 var clauseKeywords = map[string]bool{"requires": true, "assumes": true, "ensures": true, "lemma": true, "modifies": true, "loop": true, "at": true,
-	"safe": true, "pure": true, "inline": true, "getter": true, "preserves": true, "no-map-range": true, "assume-pre": true, "guarded": true, "end": true, "let": true, "props": true, "trusted": true}
+	"safe": true, "pure": true, "inline": true, "getter": true, "preserves": true, "no-map-range": true, "assume-pre": true, "guarded": true, "store": true, "end": true, "let": true, "props": true, "trusted": true}
 
 // parseContractFile reads every //@ line of a file.
 func (p *Prog) parseContractFile(file string) error {
@@ -613,6 +614,13 @@ func (ct *Contract) addClause(txt, file string, line int) error {
 		ct.Inline = true
 	case "no-map-range":
 		ct.NoMapRange = true
+	case "store":
+		// store <field> after <callee pattern>: syntactic ordering obligation
+		f := strings.Fields(rest)
+		if len(f) != 3 || f[1] != "after" {
+			return fmt.Errorf("store <field> after <callee>")
+		}
+		ct.StoreAfter = append(ct.StoreAfter, [2]string{f[0], f[2]})
 	case "guarded":
 		// guarded <field> by <mutex field>: lock discipline obligation at every access
 		f := strings.Fields(rest)
